@@ -347,20 +347,15 @@ func (h *c12Tbtc) listener(c *verifadm.Case, typ string) (string, string, error)
 	return outcome, detail, nil
 }
 
-func TestVerif_C12_Tbtc(t *testing.T) {
-	kit.RequireEngine(t)
-	rep := kit.NewReport("C12", "admission_tbtc")
-	defer rep.Write(t)
-	w := verifadm.LoadWorld(t)
-	steps := verifadm.LoadSteps(t, "pkg/tbtc")
-	cases := verifadm.LoadCases(t)
+// c12NewTbtc builds the wallet, validator and decoder for a world.
+func c12NewTbtc(t *testing.T, w *verifadm.World, localChain *localChain) *c12Tbtc {
 	publicKeyHex, err := hex.DecodeString(
 		"0471e30bca60f6548d7b42582a478ea37ada63b402af7b3ddd57f0c95bb6843175" +
 			"aa0d2053a91a050a6797d85c38f2909cb7027f2344a01986aa2f9f8ca7a0c289")
 	if err != nil {
 		t.Fatal(err)
 	}
-	h := &c12Tbtc{w: w, decoder: verifadm.NewChannel(), chain: Connect()}
+	h := &c12Tbtc{w: w, decoder: verifadm.NewChannel(), chain: localChain}
 	// the node derives operator addresses with its chain's Signing(): it must agree with the world's
 	var operators []chain.Address
 	for s := 1; s <= w.N; s++ {
@@ -376,13 +371,26 @@ func TestVerif_C12_Tbtc(t *testing.T) {
 	// as node.go does for the signing / coordination channels
 	h.decoder.SetUnmarshaler(func() net.TaggedUnmarshaler { return &signingDoneMessage{} })
 	h.decoder.SetUnmarshaler(func() net.TaggedUnmarshaler { return &coordinationMessage{} })
+	return h
+}
+
+func TestVerif_C12_Tbtc(t *testing.T) {
+	kit.RequireEngine(t)
+	rep := kit.NewReport("C12", "admission_tbtc")
+	defer rep.Write(t)
+	w := verifadm.LoadWorld(t)
+	steps := verifadm.LoadSteps(t, "pkg/tbtc")
+	cases := verifadm.LoadCases(t)
+	localChain := Connect()
+	h := c12NewTbtc(t, w, localChain)
 	verifadm.Run(t, rep, w, steps, cases, map[string]verifadm.Driver{
 		"coordinationExecutor.executeFollowerRoutine": h.follower,
 		"signingDoneCheck.listen":                     h.listener,
 	})
-	// streams of messages (specs/Admission/AdmissionLoop.tla)
-	verifadm.RunSequences(t, rep, "pkg/tbtc/coordinationExecutor.executeFollowerRoutine", h.followerSequence)
-	verifadm.RunSequences(t, rep, "pkg/tbtc/signingDoneCheck.listen", h.listenerSequence)
+	// streams of messages (specs/Admission/AdmissionLoop.tla), stated in their own (4-seat) world
+	hl := c12NewTbtc(t, verifadm.LoadLoopWorld(t), localChain)
+	verifadm.RunSequences(t, rep, "pkg/tbtc/coordinationExecutor.executeFollowerRoutine", hl.followerSequence)
+	verifadm.RunSequences(t, rep, "pkg/tbtc/signingDoneCheck.listen", hl.listenerSequence)
 }
 
 // listenerSequence replays a stream of done messages (AdmissionLoop.tla, kind firstWins).
